@@ -26,6 +26,7 @@ var props = map[string]propSpec{
 	"C11": {Engine: "world", Cover: []string{"C06.A"}, QuickRuns: 1200, QuickSecs: 40, ThoroughS: 600, Components: worldComponents},
 	"C12": {Engine: "world", QuickRuns: 1200, QuickSecs: 40, ThoroughS: 600, Components: worldComponents, MinReach: []string{"l5_tamper_judged"}},
 	"C13": {Engine: "world", Cover: []string{"C01.A2"}, QuickRuns: 1200, QuickSecs: 40, ThoroughS: 600, Components: worldComponents, MinReach: []string{"cross_host_cookie_refused"}},
+	"C14": {Engine: "world", QuickRuns: 1200, QuickSecs: 40, ThoroughS: 600, Components: worldComponents, MinReach: []string{"c14_load_refused"}},
 	"C18": {Engine: "world", QuickRuns: 1200, QuickSecs: 40, ThoroughS: 600, Components: worldComponents, MinReach: []string{"https_redirect"}},
 	"C19": {Engine: "world", QuickRuns: 1200, QuickSecs: 40, ThoroughS: 600, Components: worldComponents, MinReach: []string{"signed_out", "signout_revoke_failed"}},
 	"C20": {Engine: "world", QuickRuns: 1200, QuickSecs: 40, ThoroughS: 600, Components: worldComponents, MinReach: []string{"c20_twin_compared"}},
